@@ -128,6 +128,18 @@ def flatten(ck, ctx):
         tv = strip(PR.arg(ibb, 1))
         ok = ok and any(c[1] == "depfile::read_path" for c in calls_in(tv))
     ck.ob("flatten", "parse|one-entry-per-target", ok, "depfile::parse pushes every read_path result of a rule into that rule's list and inserts (target, list) once per rule", span=pb.loc, fn=pb.nname)
+    # blank lines / leading spacing between rules: read_path answers None at a newline (and at NUL), and None for the *target*
+    # ends the parse, so the target read must never start at ' ' or '\n' -- the separator loop has consumed all of them
+    if ok:
+        from n2sa.byteclass import ByteClass
+        bc = ByteClass(F, pb, pcfg)
+        tsites = sorted({c[3] for c in calls_in(tv) if c[1] == "depfile::read_path"})
+        det = {}
+        for tb in tsites:
+            poss = bc.possible_at(tb)
+            det[tb] = None if poss is None else sorted(set((32, 10)) & poss)
+        okb = bool(tsites) and not bc.capped and all(v == [] for v in det.values())
+        ck.ob("flatten", "parse|blank-lines-skipped", okb, "on every path to the read_path that reads a rule's target the current byte is neither ' ' nor '\\n' (so its None means end of input, not a blank line): still possible there %s" % det, span=pb.loc, fn=pb.nname)
     # the target's ':' handling: strip_suffix(':') or expect(':')
     cs = [callee_of(t) for _, t in pb.calls()]
     exp = [(bb, t) for bb, t in pb.calls() if callee_of(t) == "scanner::Scanner::expect"]
